@@ -164,6 +164,17 @@ CLAIMS["C13"] = (
     "Trusted: numpy dot/matmul/linalg semantics. The reference formulas are transcribed from the class docstrings / the cited papers.",
     "DESIGN.md §4 C13")
 
+CLAIMS["C15"] = (
+    "algebraic normal-form proof of the inverse pair + RAW/SCALED unit typing through the field-flow evaluator + invariant-restoration rule + spec "
+    "congruence of back-transformed statistics (ast)",
+    "Decides: unscale(from_numpy(raw)) normalises to raw with location = nanmean, scale = two-pass nanstd and the 0 -> 1 substitution ahead of the "
+    "division; the overridden taxa operations feed self.unscale() and values.unscale() (or a raw array) into the numpy primitive and re-standardise "
+    "through from_numpy, with trait names carried; every per-trait statistic with unscale=True normalises to the back-transformed definition "
+    "(extremum*scale+location, ptp*scale, location, scale, scale^2) and to the plain reduction otherwise; arg-extrema use the stored matrix. The "
+    "inherited mutators and concat_taxa that bypass re-standardisation are reported (12 known findings).",
+    "Trusted: numpy nanmean/nanstd/ptp semantics. Not decided: NaN propagation inside reductions; the constant-trait corner of tstd/tvar(unscale=True).",
+    "DESIGN.md §4 C15")
+
 NOT_YET = "rule set not built yet (build in progress; see DESIGN.md §8)"
 NA = {}
 
